@@ -20,12 +20,68 @@ fn kind_name(k: u8) -> &'static str {
         5 => "value (hexadecimal text)",
         6 => "blinding / seed (hexadecimal text)",
         7 => "value (big-endian)",
+        8 => "blinding / seed (signed-digit expansion)",
         _ => "control",
     }
 }
 
+/// width-`w` non-adjacent form of a scalar (the expansion variable-time multiscalar multiplication works on)
+fn naf(s: &Scalar, w: usize) -> [i8; 256] {
+    let mut naf = [0i8; 256];
+    let mut x = [0u64; 5];
+    for (i, c) in s.as_bytes().chunks(8).enumerate() {
+        x[i] = u64::from_le_bytes(c.try_into().unwrap());
+    }
+    let width = 1u64 << w;
+    let mask = width - 1;
+    let (mut pos, mut carry) = (0usize, 0u64);
+    while pos < 256 {
+        let (idx, bit) = (pos / 64, pos % 64);
+        let buf = if bit < 64 - w { x[idx] >> bit } else { (x[idx] >> bit) | (x[idx + 1] << (64 - bit)) };
+        let window = carry + (buf & mask);
+        if window & 1 == 0 {
+            pos += 1;
+            continue;
+        }
+        if window < width / 2 {
+            carry = 0;
+            naf[pos] = window as i8;
+        } else {
+            carry = 1;
+            naf[pos] = (window as i8).wrapping_sub(width as i8);
+        }
+        pos += w;
+    }
+    naf
+}
+
+/// signed radix-16 digits of a scalar (the expansion constant-time multiscalar multiplication works on)
+fn radix16(s: &Scalar) -> [i8; 64] {
+    let mut out = [0i8; 64];
+    for (i, b) in s.as_bytes().iter().enumerate() {
+        out[2 * i] = (b & 15) as i8;
+        out[2 * i + 1] = ((b >> 4) & 15) as i8;
+    }
+    for i in 0..63 {
+        let carry = (out[i] + 8) >> 4;
+        out[i] -= carry << 4;
+        out[i + 1] += carry;
+    }
+    out
+}
+
+fn register_digit_expansions(s: &Scalar) {
+    let n5: Vec<u8> = naf(s, 5)[96..128].iter().map(|d| *d as u8).collect();
+    alloc::register(&n5, 8);
+    let r16: Vec<u8> = radix16(s)[16..48].iter().map(|d| *d as u8).collect();
+    alloc::register(&r16, 8);
+}
+
 fn register_secrets(inst: &rrun::Inst) {
     alloc::clear();
+    for s in inst.blindings.iter().flatten().take(2).chain(inst.seed.iter()) {
+        register_digit_expansions(s);
+    }
     // renderings of the secrets as text (a diagnostic string built from them is a copy like any other): first, so
     // that large aggregates do not crowd them out of the pattern table
     for v in inst.values.iter().take(4) {
@@ -115,6 +171,16 @@ pub fn c20(opts: &Opts, out: &mut Out) {
         let (hits, freed) = alloc::disarm();
         report(out, "prove", &format!("{} expected-seed-derivations={}", key, if seeded { t * (3 + 2 * kappa) } else { 0 }), &hits, freed, &mut total_freed);
         out.req(format!("lifecycle fixed=1 seeded={} m={} t={} rounds={} op=prove", seeded as u8, m, t, kappa), format!("unwiped={}", hits.len()));
+        // the public commitment function on the witness's own data
+        {
+            let pr = rrun::params(n, m, t);
+            register_secrets(&inst);
+            alloc::arm();
+            let c = pr.pc_gens().commit(&Scalar::from(inst.values[0]), &inst.blindings[0]);
+            let (hits, freed) = alloc::disarm();
+            report(out, "PedersenGens::commit", &key, &hits, freed, &mut total_freed);
+            let _ = c;
+        }
         // the other entry point
         {
             let mut tr2 = inst.transcript();
